@@ -32,3 +32,29 @@ Example C02_example :
   let t := build (parent 3) 4 3 false [5;5;63;0;9;12;9;300;301;511] in
   existsb (fun c => match c with CM2L 2 _ (_ :: _) => true | _ => false end) (execute 3 false 2 63 t) = true.
 Proof. vm_compute. reflexivity. Qed.
+
+(* ---- target/source executor and the periodic top tree (Spec/ArgsTsm.v) ---- *)
+From Tbfmm Require Import Exec.ExecTsmDefs Exec.ExecPeriodicDefs Spec.ArgsTsm.
+
+(* leaf operators and upward translations get SOURCE leaves / cells, downward ones TARGET cells; every transfer source is an
+   existing source cell at the stated level listed (with that code) in the target cell's specification list; the one-sided
+   direct interaction gets an existing source leaf that is the target leaf itself (centre code) or one of its full neighbour
+   list; nothing is ever empty *)
+Theorem C02_tsm_args_consistent : forall d per H Bs Bt ms mt s flags src tgt idxs idxt, (0 < d)%nat -> 1 <= H ->
+  tree_ok (parent d) H Bs ms src -> tree_ok (parent d) H Bt mt tgt -> particles_ok idxs src -> particles_ok idxt tgt ->
+  Forall (fun i => 0 <= i < 2 ^ ((H - 1) * dz d)) idxs -> Forall (fun i => 0 <= i < 2 ^ ((H - 1) * dz d)) idxt ->
+  Forall (call_ok_tsm d per H src tgt) (execute_tsm d per s flags src tgt).
+Proof. exact tsm_args_consistent. Qed.
+Print Assumptions C02_tsm_args_consistent.
+
+(* the top tree: the base calls hand over exactly the level-1 cells with their true child codes; every upward call all 2^d
+   children; every transfer call distinct codes of offsets in [-3,3]^d that are not adjacent, in the exact number of the
+   window; downward calls child 0 *)
+Theorem C02_top_args_consistent : forall d k flags t, (0 < d)%nat -> 0 <= k -> Forall (top_call_ok d k t) (top_execute d k flags t).
+Proof. exact top_args_consistent. Qed.
+Print Assumptions C02_top_args_consistent.
+
+Theorem C02_top_args_consistent_tsm : forall d k flags src tgt, (0 < d)%nat -> 0 <= k ->
+  Forall (top_call_ok_tsm d k src tgt) (top_execute_tsm d k flags src tgt).
+Proof. exact top_args_consistent_tsm. Qed.
+Print Assumptions C02_top_args_consistent_tsm.
